@@ -76,7 +76,8 @@ def _replay_case(ctx, case, first=None):
 
 def run(ctx):
     ctx.assumptions += [
-        "underlying readers obey io.Reader (never (0, nil) forever); ReadBytes(n > 1024) panics by contract",
+        "underlying readers obey io.Reader (a (0, nil) result is followed by progress; every fifth random case uses a "
+        "reader that returns (0, nil) on every second call); ReadBytes(n > 1024) panics by contract",
         "trace events carry returned data in full up to 48 bytes, else length, first/last 8 bytes and a checksum",
         "exhaustive model uses B=4 and position-coded file contents; B=1024 is reached by scaled replay",
     ]
